@@ -43,6 +43,28 @@ def gen_symbols(outdir):
     return meta
 
 
+def id_constants_denote_zones(v, c, d, where):
+    """Every published kZoneId<S> constant belongs to the symbol kZone<S>: if that is a zone, the constant is the djb2 of the
+    zone's name; if it is a link reference, the constant must be the id of the zone the link denotes (a link has no id of its
+    own: its reference IS the target's ZoneInfo); a constant without a symbol is a violation as well."""
+    zone_by_sym = {sym: name for sym, name in d["zones"]}
+    link_by_sym = {sym: (link, target) for sym, link, target in d["links"]}
+    for sym, val, cname in d["ids"]:
+        c["id_constants_checked"] = c.get("id_constants_checked", 0) + 1
+        zsym = "kZone" + sym[len("kZoneId"):]
+        if zsym in zone_by_sym:
+            want, denotes = srcparse.djb2(zone_by_sym[zsym]), zone_by_sym[zsym]
+        elif zsym in link_by_sym:
+            want, denotes = srcparse.djb2(link_by_sym[zsym][1]), "%s -> %s" % link_by_sym[zsym]
+        else:
+            v.violation("c11:id-constant-without-zone-symbol", "a kZoneId constant has no kZone symbol of the same name", {"where": where, "constant": sym})
+            continue
+        if val != want:
+            v.violation("c11:id-constant-is-not-the-id-of-the-zone-its-symbol-denotes",
+                        "a published kZoneId<S> constant differs from the zoneId of the zone that kZone<S> denotes",
+                        {"where": where, "constant": sym, "value": "0x%08x" % val, "symbol_denotes": denotes, "that_zones_id": "0x%08x" % want})
+
+
 def run(tier):
     v = Verdict("C11", tier)
     out = vlib.scratch()
@@ -65,6 +87,7 @@ def run(tier):
                         {"counts": d["counts"], "zones": len(d["zones"]), "links": len(d["links"])})
         if len(d["ids"]) != len(d["zones"]) or {n for _, _, n in d["ids"]} != {n for _, n in d["zones"]}:
             v.violation("c11:id-constants-vs-zones", "%s: kZoneId constants do not cover exactly the declared zones" % db, None)
+        id_constants_denote_zones(v, c, d, db)
         for sym, link, target in d["links"]:
             if target not in {n for _, n in d["zones"]}:
                 v.violation("c11:link-target-undeclared", "%s: link %s -> %s has no declared target" % (db, link, target), None)
@@ -148,6 +171,7 @@ def run(tier):
         parts = []
         for scope, ns, nsk, tag in (("basic", "gendb", "basic", "Basic"), ("extended", "gendbx", "extended", "Ext")):
             d = srcparse.parse_zone_infos_h(gens[scope] / "zone_infos.h")
+            id_constants_denote_zones(v, c, d, "fresh 2025b " + scope)
             id_by_name = {name: sym for sym, val, name in d["ids"]}
             parts.append('#include "%s"' % (gens[scope] / "zone_infos.h"))
             parts.append("struct GenSym%s { const char* name; uint32_t idconst; int hasId; const %s::ZoneInfo* zi; };" % (tag, nsk))
@@ -246,6 +270,7 @@ def run(tier):
                           {"scope": scope, "error": repr(e.exc)[:300]})
               continue
           d = srcparse.parse_zone_infos_h(sgen / "zone_infos.h")
+          id_constants_denote_zones(v, c, d, "edge ids %s %s" % (half, scope))
           consts = {name: val for sym, val, name in d["ids"]}
           cpp = (sgen / "zone_infos.cpp").read_text()
           emitted = dict((n, int(x, 16)) for n, x in re.findall(r'kZoneName\w+\[\] \w* ?= "([^"]+)";.*?(0x[0-9a-f]+) /\*zoneId\*/', cpp, re.S))
